@@ -226,7 +226,8 @@ def run_check(args, root):
         cap = None if not max_runs else max_runs - nrun
         out = core.run_tasks(
             stream, max(left, 0.01), args.jobs, prop.RUN_TIMEOUT,
-            os.path.join(root, 'b%d' % nrun), stop_on_violation=True,
+            os.path.join(root, 'b%d' % nrun),
+            stop_on_violation=not os.environ.get('VERIF_KEEP_GOING'),
             max_tasks=cap)
         nrun += len(out)
         results.extend(out)
@@ -237,7 +238,7 @@ def run_check(args, root):
                     known_keys_seen.setdefault(k['key'], (k, v, res))
                 else:
                     unknown.append((task, res, v))
-        if unknown or not out:
+        if (unknown and not os.environ.get('VERIF_KEEP_GOING')) or not out:
             break
     agg = _aggregate(results)
     rc = 0
@@ -249,7 +250,16 @@ def run_check(args, root):
         print('KNOWN-FINDING: property=%s %s' % (pid, k.get('what_fails',
                                                             v['message'])))
     nviol = 0
-    if unknown and rc == 0:
+    if unknown and rc == 0 and os.environ.get('VERIF_KEEP_GOING'):
+        keys = {}
+        for task, res, v in unknown:
+            keys.setdefault(v['key'], []).append((res['seed'], v['message']))
+        for k, lst in sorted(keys.items()):
+            print('FOUND %3d x %s\n      e.g. seed=%s %s' % (
+                len(lst), k, lst[0][0], lst[0][1][:400]))
+        rc = 1
+        nviol = len(keys)
+    elif unknown and rc == 0:
         seen = set()
         for task, res, v in unknown:
             if v['key'] in seen:
